@@ -1768,7 +1768,14 @@ func (ex *Exec) builtin(st *State, name string, call *ast.CallExpr, sc *SpecCtx)
 		}
 		return one(ex.freshVal(intT, "copyn"))
 	case "close":
-		ex.eval(st, call.Args[0], sc)
+		ch := ex.eval(st, call.Args[0], sc)
+		// ghost closedN(ch) (when declared): close of a nil or already closed channel panics
+		if g, ok := ex.eng.cs.Ghosts["closedN"]; ok && sc == nil && ch.Sh != nil && ch.Sh.IsLeaf() {
+			loc := ex.ghostLoc(g, []*Val{ch})
+			n := ex.readLoc(st, loc)
+			ex.safety(st, "close-of-closed-channel", call.Pos(), and(not(eq(ch.S, "0")), eq(n.S, "0")))
+			ex.writeLoc(st, loc, ex.intVal("(+ "+n.S+" 1)", types.Typ[types.Int]))
+		}
 		return nil
 	case "clear":
 		m := ex.eval(st, call.Args[0], sc)
